@@ -363,8 +363,13 @@ TickitTerm *tickit_window_get_term(const TickitWindow *win)
 
 void tickit_window_close(TickitWindow *win)
 {
-  if(win->parent)
+  if(win->parent) {
+    /* Queued restacking requests hold plain pointers to this window and to the
+     * windows below it; drop them while the path to the root still exists
+     */
+    _purge_hierarchy_changes(win);
     _do_hierarchy_change(TICKIT_HIERARCHY_REMOVE, win->parent, win);
+  }
 
   win->is_closed = true;
 }
@@ -402,6 +407,13 @@ void tickit_window_destroy(TickitWindow *win)
     tickit_term_unbind_event_id(root->term, root->event_ids[2]);
 
     tickit_term_unref(root->term);
+
+    /* Requests naming windows that outlive the root would otherwise leak */
+    while(root->hierarchy_changes) {
+      HierarchyChange *req = root->hierarchy_changes;
+      root->hierarchy_changes = req->next;
+      free(req);
+    }
   }
 
   DEBUG_LOGF("W*", "Window destroyed " WINDOW_PRINTF_FMT,
@@ -943,13 +955,30 @@ static void _request_hierarchy_change(HierarchyChangeType change, TickitWindow *
   }
 }
 
+static bool _is_within(const TickitWindow *win, const TickitWindow *ancestor)
+{
+  for(/**/; win; win = win->parent)
+    if(win == ancestor)
+      return true;
+
+  return false;
+}
+
+/* Forget every queued request about win or any window below it */
 static void _purge_hierarchy_changes(TickitWindow *win)
 {
-  TickitRootWindow *root = _get_root(win);
+  const TickitWindow *top = win;
+  while(top->parent)
+    top = top->parent;
+  if(!top->is_root)
+    /* Already detached from the tree; its requests went when that happened */
+    return;
+
+  TickitRootWindow *root = WINDOW_AS_ROOT((TickitWindow *)top);
   HierarchyChange **changep = &root->hierarchy_changes;
   while(*changep) {
     HierarchyChange *req = *changep;
-    if(req->parent == win || req->win == win) {
+    if(_is_within(req->win, win)) {
       *changep = req->next;
       free(req);
     }
